@@ -516,4 +516,8 @@ func TestVerifC15Race(t *testing.T) {
 		return
 	}
 	h.bursts(t, priv, "t.example.com", vlib.Budget(20, 300))
+	// several encodings alive at once, from several goroutines, under the detector
+	for round := 0; round < vlib.Budget(3, 30); round++ {
+		h.alive(4)
+	}
 }
